@@ -168,6 +168,12 @@ def run(eng, tier):
                                '%s: payout by marker transfer must be drawn from the contract with the contract as administrator; got from=%s admin=%s' % (
                                    p.variant, K(tr['from']), K(tr['admin'])), where=call_site)
                 contexts.add((tuple(hsite), tr['mech']))
+    # premise of I5 (used above to relate a bid's fee denomination to its quote denomination): admission enforces it
+    for p in eng.paths('execute', 'ok', 'CreateBid'):
+        fee = M('CreateBid', 'fee')
+        if p.variant_of(fee) == 'Some':
+            eng.ob(p.holds(EQ(F(SOMEV(fee), 'denom'), M('CreateBid', 'quote')), True) is not None, PROP, 'I5-established', 'CreateBid',
+                   'a bid is admitted without requiring fee.denom == quote denom; later fee transfers choose the mechanism from the quote denomination\'s marker type', detail=p.describe(12))
     # spec floor: every fund-moving request kind has at least one message on some successful path
     movers = ['CreateAsk', 'CreateBid', 'ApproveAsk', 'CancelAsk', 'CancelBid', 'ExpireAsk', 'ExpireBid', 'RejectAsk', 'RejectBid', 'ExecuteMatch']
     for v in movers:
